@@ -23,7 +23,7 @@ def pdb_atom_name(name, element):
 def to_pdb(recs, with_models=None):
     lines = []
     models = list(dict.fromkeys(r["model"] for r in recs))
-    multi = with_models if with_models is not None else len(models) > 1
+    multi = with_models if with_models is not None else (len(models) > 1 or models != [1])
     serial = 0
     for m in models:
         if multi:
